@@ -1,5 +1,5 @@
 """C18 -- secp256k1 point arithmetic equals the textbook group law."""
-from .. import constants, grouptrace
+from .. import constants, euclid, grouptrace
 from . import c07
 
 
@@ -7,3 +7,4 @@ def run(ctx):
     constants.check_constants(ctx, ("secp",))
     grouptrace.run_traces(ctx, ["secp"])        # full size: dlog tracking mod N (BigNat), negative and 512-bit scalars
     c07.curve_tables(ctx, secp=True, name="CurveTable_secp")
+    euclid.euclid_checks(ctx, which=("secp",))      # the inversion loop behind from_jacobian, step by step
